@@ -13,9 +13,11 @@
     lower (C14_ratio); with renewable-fuelled cogeneration the RER statement is false
     (C14_rer_with_renewable_cogeneration_refuted, a known finding).
 
-    PARTIAL: the load matching mode (the factor (32) is a rational function of production / use) and the assembly
-    of the carrier-level statements into the building totals are decided by the differential run only. *)
-From Cteepbd Require Import Model.Factors Proofs.StepFacts Proofs.ColFacts Proofs.ClosedForm Proofs.RerFacts Proofs.PvFacts.
+    C14_building assembles the carrier statements into the building totals for the regulatory factor sets.
+
+    PARTIAL: the load matching mode (the factor (32) is a rational function of production / use) is decided by the
+    differential run only. *)
+From Cteepbd Require Import Model.Factors Proofs.StepFacts Proofs.ColFacts Proofs.DataEquiv Proofs.ClosedForm Proofs.RerFacts Proofs.PvFacts Proofs.PvBuilding.
 Open Scope Qc_scope.
 
 Section Statement.
@@ -64,6 +66,22 @@ Theorem C14_ratio : forall r n r' n' ro no : Qc,
   (ro + r) / (ro + r + (no + n)) <= (ro + r') / (ro + r' + (no + n')).
 Proof. exact ratio_mono. Qed.
 
+(** the whole building, under a regulatory factor set ([reg_set]: what Factors::normalize and the CTE tables give):
+    one more EL_INSITU production component — evaluated with the same factors, k_exp in [0,1], any area, no load
+    matching — and the building's non-renewable primary energy, its emissions (step A and step B) and the energy
+    delivered by the grids do not grow.  The other carriers do not see the component; the cogeneration factor is the same. *)
+Theorem C14_building : forall (fs0 : list Factor) (c : Components) (i : Z) (dv : list Qc) (cm : str) (k area : Qc) (n : nat) (ep ep' : EP),
+  reg_set fs0 -> nonneg_data (c_data c) -> dom_data (c_data c) -> wf n (c_data c) -> (0 < n)%nat ->
+  length dv = n -> Forall (fun v => 0 <= v) dv -> Forall zg dv ->
+  In ELECTRICIDAD (avail_carriers (c_data c)) -> filter (has_carrier ELECTRICIDAD) (c_data c) <> nil ->
+  0 <= k <= 1 ->
+  energy_performance c fs0 k area false = Ok ep ->
+  energy_performance (mkComponents (c_meta c) (c_data c ++ [EProd i EL_INSITU dv cm]) (c_needs c)) fs0 k area false = Ok ep' ->
+  nren (t_we_a ep') <= nren (t_we_a ep) /\ co2 (t_we_a ep') <= co2 (t_we_a ep)
+  /\ nren (t_we_b ep') <= nren (t_we_b ep) /\ co2 (t_we_b ep') <= co2 (t_we_b ep)
+  /\ t_del_grid ep' <= t_del_grid ep.
+Proof. intros. eapply pv_monotone_building; eassumption. Qed.
+
 (** the three regimes of a time step *)
 Theorem C14_step_both_sources : forall c d, col_ok c -> el_col c -> 0 <= d -> zg (c_pv c) -> zg (c_chp c) ->
   s_del_grid (sr true (bump d c)) <= s_del_grid (sr true c) /\ s_exp (sr true c) <= s_exp (sr true (bump d c))
@@ -85,10 +103,12 @@ Definition c14_base : list Energy :=
 Definition c14_more : list Energy := c14_base ++ [EProd 3 EL_INSITU [qz 50] []].
 
 Example C14_hypotheses_met :
-  nonneg_data c14_base /\ dom_data c14_base /\ filter (has_carrier ELECTRICIDAD) c14_base <> nil /\ reg_set c14_factors.
+  nonneg_data c14_base /\ dom_data c14_base /\ filter (has_carrier ELECTRICIDAD) c14_base <> nil /\ reg_set c14_factors
+  /\ wf 1 c14_base /\ In ELECTRICIDAD (avail_carriers c14_base).
 Proof.
   split; [apply nonneg_datab_ok; vm_compute; reflexivity|]. split; [apply dom_datab_ok; vm_compute; reflexivity|].
-  split; [discriminate|apply reg_setb_ok; vm_compute; reflexivity].
+  split; [discriminate|]. split; [apply reg_setb_ok; vm_compute; reflexivity|]. split; [repeat constructor|].
+  vm_compute. tauto.
 Qed.
 
 (** cogeneration fed with biomass, and a gas boiler: the electricity the cogenerator no longer supplies to the
@@ -107,6 +127,7 @@ Qed.
 Print Assumptions C14_grid_delivered_never_grows.
 Print Assumptions C14_exported_never_shrinks.
 Print Assumptions C14_nren_co2_never_grow.
+Print Assumptions C14_building.
 Print Assumptions C14_step_both_sources.
 Print Assumptions C14_ren_never_shrinks_without_cogeneration.
 Print Assumptions C14_ratio.
